@@ -14,6 +14,7 @@ from hypothesis import strategies as st
 
 from vk import SubCheck, Violation, call, judge, check, note_label, note_count
 from vk.runner import tmpdir
+from props import c16_readspec as C16
 
 PROPERTY = 'C20'
 LEVEL = 'fault_enumeration'
@@ -100,6 +101,17 @@ class EnvProxy(object):
     def __iter__(self):
         return iter(os.environ)
 
+    def __len__(self):
+        return len(os.environ)
+
+    def setdefault(self, k, default=None):
+        self._inj.hit('environ.setdefault(%s)' % k)
+        return os.environ.setdefault(k, default)
+
+    def __getattr__(self, n):
+        # the rest of the mapping interface (items, values, copy, ...) goes to the real mapping
+        return getattr(os.environ, n)
+
 
 class PathProxy(object):
     def __init__(self, inj):
@@ -137,7 +149,7 @@ def set_env(state, extra):
         os.environ[k] = v
 
 
-def enumerate_faults(runner, inj, scenario_label, touched, initially):
+def enumerate_faults(runner, inj, scenario_label, touched, initially, excs=None):
     """runner(): executes the entry point once (exceptions swallowed, returned as text).  Returns (N, nfault, nnontrivial)."""
     def one(k, exc):
         inj.calls = []
@@ -159,7 +171,7 @@ def enumerate_faults(runner, inj, scenario_label, touched, initially):
     n = len(calls)
     nf = nnt = 0
     for k in range(1, n + 1):
-        for exc in EXC:
+        for exc in (excs or EXC):
             st_, calls_k, mod_k = one(k, exc)
             nf += 1
             if mod_k is not None and k >= mod_k:
@@ -253,17 +265,21 @@ def window_classify(case):
 
 
 # ------------------------------------------------------------------ template_input
+PAR_EXTRA = ['boss_spectro_redux', 'spectro_redux', 'photo_calib', 'spectro_match', 'topdir', 'idlspec2d_dir', 'comment']
 PAR_KEYS = ['object', 'method', 'aesthetics', 'run2d', 'run1d', 'wavemin', 'wavemax', 'snmax', 'niter', 'nkeep', 'minuse']
 
 
 def write_par(fn, case):
-    vals = dict(object=case['object'], method=case['method'], aesthetics='mean', run2d='v9_9_9', run1d='v8_8_8', wavemin='3600', wavemax='3700',
+    r2, r1 = (C16.RUN2D, C16.RUN1D) if case.get('real_read') else ('v9_9_9', 'v8_8_8')
+    vals = dict(object=case['object'], method=case['method'], aesthetics='mean', run2d=r2, run1d=r1, wavemin='3600', wavemax='3700',
                 snmax='100', niter='2', nkeep='4', minuse='3' if case['variant'] == 'low-usemask' else '1')
     if case['variant'] == 'missing-keyword':
         vals.pop(case['which'])
     if case['variant'] == 'non-numeric':
         vals[case['which'] if case['which'] in ('wavemin', 'wavemax', 'snmax', 'niter', 'nkeep', 'minuse') else 'niter'] = 'abc'
     lines = ['%s %s' % (k, vals[k]) for k in PAR_KEYS if k in vals]
+    # further keyword/value pairs the file may carry (inert for template_input; some are spelled like environment variables)
+    lines += ['%s %s' % (k, v) for k, v in case.get('parextra', [])]
     if case['method'] == 'hmf' and case['variant'] != 'missing-hmf-keys':
         lines += ['epsilon 0.1', 'nonnegative 0']
     if case['variant'] != 'missing-table':
@@ -365,7 +381,15 @@ def template_body(case):
             inj.hit('yanny(read parameter file)')
             return real_init(self, *a, **k)
 
-        patches = dict(readspec=inj.wrap('readspec', f_readspec), skymask=inj.wrap('skymask', lambda iv, a, o, ngrow=2: iv.copy()),
+        real_read = bool(case.get('real_read'))
+        if real_read:
+            # the reading stage runs for real on a small synthetic survey tree (spPlate + spZbest, no photoPlate file)
+            top = os.path.join(d, 'redux')
+            os.makedirs(top)
+            C16.write_tree(top, dict(conv='vectors', config='env', photo=False,
+                                     obs=[dict(plate=300, mjd=55100, nf=4, npix=npix, c0=3.55, c1=1e-4), dict(plate=301, mjd=55300, nf=4, npix=npix, c0=3.55, c1=1e-4)]))
+            os.environ['BOSS_SPECTRO_REDUX'] = top
+        patches = dict(readspec=inj.wrap('readspec', M.readspec if real_read else f_readspec), skymask=inj.wrap('skymask', lambda iv, a, o, ngrow=2: iv.copy()),
                        wavevector=inj.wrap('wavevector', M.wavevector), preprocess_spectra=inj.wrap('preprocess_spectra', f_pre),
                        pca_solve=inj.wrap('pca_solve', f_pca), HMF=FakeHMF, template_qso=inj.wrap('template_qso', f_qso),
                        template_star=inj.wrap('template_star', f_star), plot_eig=inj.wrap('plot_eig', lambda *a, **k: None), plt=FakePlt(), os=OsProxy(inj))
@@ -394,7 +418,7 @@ def template_body(case):
                         return '%s: %s' % (type(e).__name__, str(e)[:60])
             finally:
                 del M.open
-        status, n, nf, nnt = enumerate_faults(runner, inj, dict(case), ('RUN2D', 'RUN1D'), state)
+        status, n, nf, nnt = enumerate_faults(runner, inj, dict(case), ('RUN2D', 'RUN1D'), state, excs=EXC[:1] if real_read else None)
     note_label('clean:' + status.split(':')[0])
     note_label('fault-points:%d0s' % (n // 10))
     if nnt:
@@ -409,6 +433,9 @@ def template_grid(tier):
                     if variant == 'missing-hmf-keys' and method != 'hmf':
                         continue
                     yield dict(run2d=run2d, run1d=run1d, object=obj, method=method, variant=variant, which='niter', flux=False, dump_exists=False, extra=[])
+    # the real reading stage, with and without the variables it consults
+    for extra in ([], [['SPECTRO_MATCH', '/nonexistent/match'], ['PHOTO_RESOLVE', '/nonexistent/resolve']]):
+        yield dict(run2d=None, run1d='orig1d', object='gal', method='pca', variant='ok', which='niter', flux=False, dump_exists=False, extra=extra, real_read=True)
 
 
 @st.composite
@@ -419,11 +446,13 @@ def template_case(draw):
     return dict(run2d=draw(st.sampled_from(['orig2d', None, 'v9_9_9', ''])), run1d=draw(st.sampled_from([None, 'orig1d', 'v8_8_8'])), object=obj,
                 method=draw(st.sampled_from(['pca', 'hmf', 'bogus'])),
                 variant=draw(st.sampled_from(['ok', 'ok', 'missing-keyword', 'non-numeric', 'missing-hmf-keys', 'missing-table', 'unreadable-file', 'low-usemask'])),
-                which=draw(st.sampled_from(PAR_KEYS)), flux=draw(st.booleans()), dump_exists=draw(st.booleans()), extra=extra)
+                which=draw(st.sampled_from(PAR_KEYS)), flux=draw(st.booleans()), dump_exists=draw(st.booleans()), extra=extra,
+                parextra=[[k, draw(st.sampled_from(['/data/redux', 'v1_2_3', 'x']))] for k in draw(st.lists(st.sampled_from(PAR_EXTRA), max_size=2, unique=True))],
+                real_read=draw(st.integers(0, 9)) == 0)
 
 
 def template_classify(case):
-    return ['RUN2D:' + ('set' if case['run2d'] is not None else 'unset'), 'RUN1D:' + ('set' if case['run1d'] is not None else 'unset'),
+    return (['real-readspec'] if case.get('real_read') else ['stub-readspec']) + (['par-extra-keywords'] if case.get('parextra') else []) + ['RUN2D:' + ('set' if case['run2d'] is not None else 'unset'), 'RUN1D:' + ('set' if case['run1d'] is not None else 'unset'),
             'obj:' + case['object'], 'method:' + case['method'], 'variant:' + case['variant'], 'flux-plots' if case['flux'] else 'no-flux-plots',
             'dump-exists' if case['dump_exists'] else 'no-dump']
 
